@@ -665,7 +665,9 @@ func (blockchain *Blockchain) Commit() abciTypes.ResponseCommit {
 		panic(err)
 	}
 
-	{ // Persist application hash and height
+	{ // Persist application hash and height (one atomic batch: a crash leaves either all records of this
+		// block or none of them, so the height reported by Info always matches the other records)
+		blockchain.appDB.BeginCommit()
 		blockchain.appDB.SetLastBlockHash(hash)
 		blockchain.appDB.SetLastHeight(height)
 
@@ -674,6 +676,7 @@ func (blockchain *Blockchain) Commit() abciTypes.ResponseCommit {
 		blockchain.appDB.SaveVersions()
 		blockchain.appDB.SaveEmission()
 		blockchain.appDB.SavePrice()
+		blockchain.appDB.EndCommit()
 	}
 
 	// Clear mempool
